@@ -467,7 +467,7 @@ class AASDataChecker(DataChecker):
                                             len(expected_value.annotation))
         for expected_data_element in expected_value.annotation:
             try:
-                object_.get_referable(expected_data_element.id_short)
+                self._check_submodel_element(object_.get_referable(expected_data_element.id_short), expected_data_element)
             except KeyError:
                 self.check(False, 'Annotation {} must exist'.format(repr(expected_data_element)))
 
@@ -661,8 +661,10 @@ class AASDataChecker(DataChecker):
         self._check_specific_asset_ids_equal(object_.specific_asset_id, expected_value.specific_asset_id, object_)
         self.check_contained_element_length(object_, 'statement', model.SubmodelElement, len(expected_value.statement))
         for expected_element in expected_value.statement:
-            element = object_.get_referable(expected_element.id_short)
-            self.check(element is not None, f'Entity {repr(expected_element)} must exist')
+            try:
+                self._check_submodel_element(object_.get_referable(expected_element.id_short), expected_element)
+            except KeyError:
+                self.check(False, f'Entity {repr(expected_element)} must exist')
 
         found_elements = self._find_extra_namespace_set_elements_by_id_short(object_.statement,
                                                                              expected_value.statement)
@@ -746,6 +748,7 @@ class AASDataChecker(DataChecker):
         :param expected_value: expected Qualifier object
         :return:
         """
+        self._check_has_semantics_equal(object_, expected_value)
         self.check_attribute_equal(object_, 'type', expected_value.type)
         self.check_attribute_equal(object_, 'value_type', expected_value.value_type)
         self.check_attribute_equal(object_, 'value', expected_value.value)
@@ -779,7 +782,7 @@ class AASDataChecker(DataChecker):
         self.check_contained_element_length(object_, 'specific_asset_id', model.SpecificAssetId,
                                             len(expected_value.specific_asset_id))
         self._check_specific_asset_ids_equal(object_.specific_asset_id, expected_value.specific_asset_id, object_)
-        self.check_attribute_equal(object_, 'asset_type', object_.asset_type)
+        self.check_attribute_equal(object_, 'asset_type', expected_value.asset_type)
         if object_.default_thumbnail and expected_value.default_thumbnail:
             self.check_resource_equal(object_.default_thumbnail, expected_value.default_thumbnail)
         else:
